@@ -934,12 +934,12 @@ pub fn c09(tier: Tier, seed: u64) -> i32 {
     let nw = ncpu();
     let alpha = alphabet();
     let mut rng = Rng::derive(seed ^ 0xc09, 0);
-    let n_contents = budget(tier, 16, 150) as usize;
+    let n_contents = budget(tier, 16, 400) as usize;
     let all = contents(&mut rng, n_contents);
     // single faults over the whole alphabet are enumerated exhaustively for the first contents;
     // the remaining contents get all deletions / truncations / structural edits and sampled rest
-    let n_exhaustive = budget(tier, 16, 80) as usize;
-    let n_pairs = budget(tier, 200_000, 10_000_000);
+    let n_exhaustive = budget(tier, 16, 200) as usize;
+    let n_pairs = budget(tier, 200_000, 40_000_000);
     let jobs: Vec<(usize, u8)> = (0..all.len()).flat_map(|i| (0..4u8).map(move |j| (i, j))).collect();
     parallel(nw, &mut rep, |w| {
         let mut part = Report::new("C09", tier, seed, "fault_enumeration");
